@@ -32,16 +32,16 @@ def read_plan(rng, L, S, n, align, exhaustive):
 
 
 def scaled_exec(rng, L, S, buf, n, align, exhaustive, losses):
-    ex = [{"ev": "reset", "large": L, "small": S, "buf": buf, "n": n, "ka": rng.randrange(1, 251),
+    ex = [{"ev": "reset", "large": L, "small": S, "buf": buf, "n": n, "unit": 1, "ka": rng.randrange(1, 251),
            "kb": rng.randrange(0, 251), "real": False}, {"ev": "encode"}]
     ex += read_plan(rng, L, S, n, align, exhaustive)
     ex += [{"ev": "rebuild", "lost": l} for l in losses]
     return ex
 
 
-def real_exec(rng, n, nreads, losses):
+def real_exec(rng, n, nreads, losses, nneedles=30):
     """production block sizes (large = small = 0 in the reset line: not representable in TLC)"""
-    ex = [{"ev": "reset", "large": 0, "small": 0, "buf": 0, "n": n, "ka": rng.randrange(1, 251),
+    ex = [{"ev": "reset", "large": 0, "small": 0, "buf": 0, "n": n, "unit": 1, "ka": rng.randrange(1, 251),
            "kb": rng.randrange(0, 251), "real": True}, {"ev": "encode"}]
     offs = set()
     for _ in range(nreads):
@@ -52,9 +52,25 @@ def real_exec(rng, n, nreads, losses):
         offs |= {o for o in (b - 8, b, b + 8) if 0 <= o < n}
     for off in sorted(offs):
         mx = n - off
-        sizes = {8, mx, MIB - off % MIB, MIB - off % MIB + 8, rng.randrange(1, mx + 1), rng.randrange(1, min(mx, 3 * MIB) + 1)}
+        sizes = {8, MIB - off % MIB, MIB - off % MIB + 8, rng.randrange(1, min(mx, 3 * MIB) + 1)}
+        if rng.randrange(8) == 0 or off == 0:
+            sizes |= {mx, rng.randrange(1, mx + 1)}
         ex.append({"ev": "reads", "off": off, "sizes": sorted(s for s in sizes if 0 < s <= mx)})
     ex += [{"ev": "rebuild", "lost": l} for l in losses]
+    # the real EcVolume object over these shards, with an index of made-up needles [id, offset/8, size]
+    if n > 4096:
+        needles = []
+        for i in range(nneedles):
+            s = rng.randrange(1, min(3 * MIB, n // 2))
+            if i % 3 == 0:   # ending just before / on / after a small block boundary
+                b = rng.randrange(1, n // MIB + 1) * MIB if n >= MIB else 0
+                o = max(0, b - rng.choice((8, 16, 64)) - (s if i % 2 else 0)) // 8
+            else:
+                o = rng.randrange(0, (n - 64 - s) // 8 + 1)
+            if 8 * o + s + 64 <= n:
+                needles.append([1 + 3 * i, o, s])
+        ex.append({"ev": "mount", "needles": needles})
+        ex += [{"ev": "needle", "id": nd[0]} for nd in needles] + [{"ev": "needle", "id": 2}]
     ex.append({"ev": "decode", "size": n})
     return ex
 
@@ -69,7 +85,7 @@ def run(ctx):
                       {"DataShards": 10, "Blocks": blocks10, "MaxRows": 3, "GenNear": {0}})
     ctx.model_check(mc, workers=4, label="locator loop as transition system, 10 data shards, every dat size <= 3 large rows")
     brute = ctx.instance("MC_EcBrute", "EcLayout", "EcLayout_brute.cfg",
-                         {"DataShards": 3, "Blocks": {(4, 1), (6, 2), (8, 2), (12, 2)} if T else {(4, 1)},
+                         {"DataShards": 3, "Blocks": {(4, 1), (6, 2), (8, 2)} if T else {(4, 1)},
                           "MaxRows": 2, "GenNear": {0}})
     ctx.model_check(brute, workers=4, label="brute force: every (dat size, offset, size), 3 data shards")
     if T:
@@ -89,16 +105,16 @@ def run(ctx):
     execs = []
     # (a) bytes: L=4, S=1: every dat size, every offset
     for n in range(0, (3 if T else 2) * 40 + 6):
-        execs.append(scaled_exec(rng, 4, 1, 1, n, 1, T, losses(3 if T else 1)))
+        execs.append(scaled_exec(rng, 4, 1, 1, n, 1, T, losses(2 if T else 1)))
     # (b) bytes: L=8, S=2 (the design's scale), two buffer sizes
     ns = range(0, 3 * 80 + 4) if T else sizes_from_tlc(8, 2, (-1, 0, 1))
     for n in ns:
         execs.append(scaled_exec(rng, 8, 2, rng.choice((1, 2)), n, 1, False,
-                                 losses(None if T and n in (80, 161) else (3 if T else 2))))
+                                 losses(None if T and n in (80, 161) else 2)))
     # (c) needle alignment: L=64, S=16 (8 and 2 units of 8 bytes), 8-aligned offsets and sizes
     for n in sizes_from_tlc(64, 16, (-8, -1, 0, 1, 8)):
         execs.append(scaled_exec(rng, 64, 16, rng.choice((8, 16)), n, 8, T and n % 640 in (0, 8, 480, 488),
-                                 losses(3 if T else 1)))
+                                 losses(2 if T else 1)))
     if T:
         # (d) other ratios large/small
         for (L, S) in ((6, 2), (6, 3), (16, 2)):
@@ -111,8 +127,14 @@ def run(ctx):
     reals = [real_exec(rng, 10 * MIB + 8 * rng.randrange(1, 1000), 40, losses(3))]
     if T:
         reals += [real_exec(rng, 20 * MIB, 150, losses(6)), real_exec(rng, 20 * MIB + 1, 100, losses(4)),
-                  real_exec(rng, 23 * MIB + 12345, 300, losses(8)), real_exec(rng, 1, 1, losses(4)),
+                  real_exec(rng, 23 * MIB + 12345, 300, losses(8), 120), real_exec(rng, 1, 1, losses(4)),
                   real_exec(rng, 0, 0, losses(4))]
+    if os.environ.get("C06_HUGE"):
+        # by hand only (about 35 GiB of disk and several minutes per file): sparse data files of C06_HUGE MiB
+        # (comma separated), production encoder and decoder, e.g. C06_HUGE=10240,10241 for one large row
+        for mib in os.environ["C06_HUGE"].split(","):
+            reals.append([{"ev": "reset", "large": 0, "small": 0, "buf": 0, "n": int(mib), "unit": MIB, "ka": 7, "kb": 0,
+                           "real": True}, {"ev": "encode"}, {"ev": "decode", "size": int(mib)}])
     if ctx.replay:
         script, rscript = ctx.replay, None
     else:
@@ -121,7 +143,9 @@ def run(ctx):
                 for ex in xs:
                     for e in ex:
                         f.write(json.dumps(e) + "\n")
-    binp = ctx.build("c06")
+    # C06_BIN: a driver built beforehand (mutation testing: build with the mutant applied, revert /repo
+    # at once, then run the check on that binary, so that the shared tree is never left mutated)
+    binp = os.environ.get("C06_BIN") or ctx.build("c06")
     consts = {"DataShards": 10, "Blocks": set(), "MaxRows": 0, "GenNear": set(), "CheckLayout": False}
 
     def corrupt_read(evs):
@@ -148,10 +172,14 @@ def run(ctx):
     def nontrivial(e):
         return sum(1 for x in e if '"ev":"reads"' in x or '"ev":"rebuild"' in x) >= 2
 
-    trace = ctx.drive(binp, ["--script", script], name="trace")
+    # temp dirs of the driver (and the log files glog insists on) live and die with ctx.out
+    tmp = os.path.join(ctx.out, "tmp")
+    os.makedirs(tmp, exist_ok=True)
+    trace = ctx.drive(binp, ["--script", script], name="trace", env={"TMPDIR": tmp})
     ctx.judge("EcLayoutTrace", trace, "trace_base.cfg", consts, nontrivial=nontrivial, mutate=corrupt_read)
     if rscript:
-        rtrace = ctx.drive(binp, ["--script", rscript], name="trace-real")
+        rtrace = ctx.drive(binp, ["--script", rscript], name="trace-real", env={"TMPDIR": tmp},
+                           timeout=14400 if os.environ.get("C06_HUGE") else 1200)
         ctx.judge("EcLayoutTrace", rtrace, "trace_base.cfg", consts, nontrivial=nontrivial, mutate=corrupt_hash,
                   label="r")
 
@@ -171,12 +199,15 @@ def run(ctx):
         for b in bad[:5]:
             ctx.model_drift.append({"what": "data shards are not laid out as EcLayout!Place says (advisory)", "reset": b})
 
+    import shutil
+    shutil.rmtree(tmp, ignore_errors=True)
     ctx.rule = ("one execution per data file: block sizes (large,small) in {(4,1),(8,2),(64,16)} (thorough: also (6,2),(6,3),"
                 "(16,2)), dat sizes = all of 0..2-3 large rows for (4,1) (thorough: (8,2) too), otherwise the sizes TLC "
                 "enumerates on and around every row boundary; the real encoder (hook, scaled blocks) writes the shards; reads at "
                 "EVERY offset (8-aligned for (64,16)) with %s through LocateData(10*shard size)+ToShardIdAndOffset+ReadAt; "
                 "rebuilds after removing %s; plus executions with the production block sizes (10-23 MiB data files: WriteEcFiles, "
-                "reads, RebuildEcFiles, WriteDatFile). non-trivial = at least two read/rebuild events; distinct by hash of "
+                "reads, RebuildEcFiles, the real EcVolume + EcVolumeShards over an index of made-up needles (LocateEcShardNeedle + shard ReadAt), "
+                "WriteDatFile). non-trivial = at least two read/rebuild events; distinct by hash of "
                 "the recorded execution" % ("every size for (4,1) and boundary files of (64,16), sampled sizes elsewhere" if T
                                             else "sizes ending on/around every block and row boundary + random ones",
                                             "every one of the 1470 loss sets of <= 4 shards on 2 files, 2-3 sampled sets on every other file"
